@@ -2,10 +2,9 @@ use crate::bdd::iterators::{ImageIterator, SupportIterator};
 use crate::bdd::Bdd;
 use crate::iterators::DomainIterator;
 use crate::traits::{BooleanFunction, BooleanPoint, BooleanValuation};
-use biodivine_lib_bdd::Bdd as InnerBdd;
 use biodivine_lib_bdd::BddVariable;
 use num_bigint::BigUint;
-use std::collections::{BTreeMap, BTreeSet, HashSet};
+use std::collections::{BTreeMap, BTreeSet};
 use std::fmt::Debug;
 use std::iter::{zip, Zip};
 
@@ -115,22 +114,17 @@ impl<T: Debug + Clone + Ord> BooleanFunction<T> for Bdd<T> {
     }
 
     fn derivative(&self, variables: BTreeSet<T>) -> Self {
-        let lib_bdd_variables = variables
-            .iter()
-            .filter_map(|it| self.map_var_outer_to_inner(it))
-            .collect::<HashSet<_>>();
-        let trigger = |var: BddVariable| lib_bdd_variables.contains(&var);
-
-        let new_bdd = Bdd::new(
-            InnerBdd::binary_op_nested(
-                &self.bdd,
-                &self.bdd,
-                trigger,
-                biodivine_lib_bdd::op_function::and,
-                biodivine_lib_bdd::op_function::xor,
-            ),
-            self.inputs.clone(),
-        );
+        // For each variable, F = F[v = 0] ^ F[v = 1]; a variable that is not an input has two
+        // equal cofactors, so its derivative is constantly false.
+        let derived = variables.iter().fold(self.bdd.clone(), |acc, variable| {
+            match self.map_var_outer_to_inner(variable) {
+                Some(var) => acc
+                    .var_restrict(var, false)
+                    .xor(&acc.var_restrict(var, true)),
+                None => acc.xor(&acc),
+            }
+        });
+        let new_bdd = Bdd::new(derived, self.inputs.clone());
 
         self.restrict_and_prune_set(&variables, &new_bdd)
     }
